@@ -558,7 +558,8 @@ def replay_witness(w, rp):
         nest = 'def nest(n):\n  x = []\n  for i in range(n):\n    x = [x]\n  return x\n'
         cases = [{'kind': 'eval', 'program': nest + 'nest(150) == nest(150)'},
                  {'kind': 'eval', 'program': nest + 'nest(5000) == nest(5000)', 'then': 'nest(150) == nest(150)'},
-                 {'kind': 'eval', 'program': nest + 'a = nest(199)\nb = nest(199)\na == b'}]
+                 {'kind': 'eval', 'program': nest + 'a = nest(199)\nb = nest(199)\na == b'},
+                 {'kind': 'eval', 'program': nest + 'nest(5000) == nest(5000)', 'repeat': 400, 'then': nest + 'nest(150) == nest(150)'}]
         res = rp.run(cases, 'dev')
         if res[0].get('ok') != 'True':
             repro = True
@@ -572,4 +573,7 @@ def replay_witness(w, rp):
         if 'panic' in res[2] or 'abort' in res[2]:
             repro = True
             notes.append(f'comparison near the limit crashed: {str(res[2])[:160]}')
+        if res[3].get('then', {}).get('ok') != 'True':
+            repro = True
+            notes.append(f'after 400 recursion-limit errors on the same thread a 150-deep comparison fails (depth leaked): {str(res[3].get("then"))[:160]}')
     return {'reproduced': repro, 'role': f'{k}: {w.get("what", "")}', 'detail': '; '.join(notes) or 'native runs under limits behave as specified', 'cases': cases[:3]}
